@@ -14,6 +14,7 @@ import json, os, shutil, subprocess, sys, time
 
 ENV = dict(os.environ, GOFLAGS='-mod=mod', GOPROXY='off', GOSUMDB='off', GOTOOLCHAIN='local')
 VERIF = os.path.dirname(os.path.dirname(os.path.abspath(__file__)))
+REPO = os.environ.get('VERIF_REPO', '/repo')
 
 
 def sh(cmd, cwd, timeout=1800):
@@ -74,11 +75,11 @@ def keep(mid, prop, patch, demo, origin, summary):
 
 def run(mid, checks, tier='quick'):
     d = os.path.join(VERIF, 'seeded', mid)
-    rc, out = sh('git status --porcelain', '/repo')
+    rc, out = sh('git status --porcelain', REPO)
     if out.strip():
         print('refusing: /repo is not clean:\n' + out)
         return 2
-    rc, out = sh('git apply %s/patch.diff' % d, '/repo')
+    rc, out = sh('git apply %s/patch.diff' % d, REPO)
     if rc != 0:
         print('patch does not apply:', out)
         return 2
@@ -91,7 +92,7 @@ def run(mid, checks, tier='quick'):
             results.append({'check': c, 'tier': tier, 'exit': rc, 'lines': lines[:6], 'wall_s': round(time.time() - t0, 1)})
             print(c, 'exit', rc, lines[:3], flush=True)
     finally:
-        sh('git checkout -- .', '/repo')
+        sh('git checkout -- .', REPO)
     p = os.path.join(d, 'results.json')
     old = json.load(open(p)) if os.path.exists(p) else []
     old = [r for r in old if not any(r['check'] == n['check'] and r['tier'] == n['tier'] for n in results)]
